@@ -14,8 +14,9 @@
     Only statements here; proofs are in proofs/GuardsProofs.v. *)
 From Coq Require Import ZArith List Bool.
 From Verif Require Import Base Cal Tables Period Engine GuardsTypes Guards GuardsSem.
-From Verif Require Import GuardsPeriod GuardsPeriodSem.
-From Verif Require Import GuardsProofs GuardsPeriodProofs.
+From Verif Require Import GuardsPeriod GuardsPeriodSem GuardsInput GuardsInputEngineSem.
+From Verif Require Import GuardsProofs GuardsPeriodProofs GuardsInputEngineProofs.
+From Verif Require GuardsInputProofs.
 Import ListNotations.
 Open Scope Z_scope.
 
@@ -119,6 +120,53 @@ Print Assumptions source_subperiods_choice.
 Theorem source_subperiods : forall p u, subperiods p u = src_subperiods p u.
 Proof. exact subperiods_is_source. Qed.
 Print Assumptions source_subperiods.
+
+(** ** The routing of an input (coq/gen/GuardsInput.v, from holders/holder.py and
+       Simulation.set_input)
+
+    The statements over the set-input model coq/model/SetInput.v ([_set], [holder_set_input],
+    [sim_set_input] re-assembled from the regenerated pieces) are in props/C16.v
+    ([source_set_input_guards_are_model_guards]), because SetInput.v and Engine.v use the
+    same names; here the regenerated decisions themselves and the engine's [set_input]. *)
+
+Theorem source_holder_eternal : forall du, gen_holder_eternal du = unit_eqb du Eternity.
+Proof. reflexivity. Qed.
+Print Assumptions source_holder_eternal.
+
+Theorem source_sim_set_input_ignored : forall has_end start_after_end,
+  gen_sim_set_input_ignored has_end start_after_end = has_end && start_after_end.
+Proof. exact GuardsInputProofs.gen_sim_set_input_ignored_bool. Qed.
+Print Assumptions source_sim_set_input_ignored.
+
+Theorem source_holder_set_input : forall ru eternal neutralized has_rule,
+  gen_holder_set_input ru eternal neutralized has_rule
+  = if unit_eqb ru Eternity && negb eternal then SOMismatch
+    else if neutralized then SOIgnored else if has_rule then SORule else SOSet.
+Proof. exact GuardsInputProofs.gen_holder_set_input_table. Qed.
+Print Assumptions source_holder_set_input.
+
+Theorem source_to_array_rejects : forall len count,
+  gen_to_array_rejects len count = negb (len =? count).
+Proof. exact GuardsInputProofs.gen_to_array_rejects_bool. Qed.
+Print Assumptions source_to_array_rejects.
+
+Theorem source_holder_set_guard : forall du ru size,
+  gen_holder_set_guard (gen_holder_eternal du) false du ru size
+  = if unit_eqb du Eternity then SGOk
+    else if negb (unit_eqb du ru) || (1 <? size) then SGMismatch else SGOk.
+Proof. exact GuardsInputProofs.gen_holder_set_guard_table. Qed.
+Print Assumptions source_holder_set_guard.
+
+Theorem source_holder_set_guard_no_period : forall du ru size,
+  gen_holder_set_guard (gen_holder_eternal du) true du ru size
+  = if unit_eqb du Eternity then SGOk else SGValueError.
+Proof. exact GuardsInputProofs.gen_holder_set_guard_no_period. Qed.
+Print Assumptions source_holder_set_guard_no_period.
+
+Theorem source_engine_set_input : forall sy pp s v p a,
+  set_input sy pp s v p a = src_engine_set_input sy pp s v p a.
+Proof. exact engine_set_input_is_source. Qed.
+Print Assumptions source_engine_set_input.
 
 (** ** Non-vacuity: the regenerated guards do raise and do accept *)
 
